@@ -822,6 +822,7 @@ func main() {
 		"keysets of size 1..3 over one representative per type URL with every subset of positions holding a secret key (every secret type x public type, primary position, statuses) against NewHandleWithNoSecrets / ReadWithNoSecrets / WriteWithNoSecrets x binary/JSON/mem; every (type URL x KeyMaterialType label in {0..5,99,-1}) x 3 placements; String()/KeysetInfo()/63 encrypted writer outputs scanned for every 8-byte window of every secret byte string in raw/base64/hex/escaped form and compared with the metadata-only expectation, ciphertext opened with an independent AEAD; wrong KEK / each AD bit / foreign context must fail to read; histories of 2-3 encrypted writes (7 shapes incl. a failing KEK between good writes) x first/later API x first/later writer (MemReaderWriter retaining its message, binary, JSON) x 6 odd-KEK behaviours (result inside the caller's buffer, decrypt sub-slice / cache, mixed) x keysets from 106 B to > 4 KiB (4068/4069/4096/4097-byte boundaries), everything the writers hold judged AFTER the history. Non-trivial = an API was exercised and judged; distinct = distinct choice vectors.",
 		[]h.Section{
 			{Name: "nosecrets", Body: noSecretsSection, Bound: -1},
+			{Name: "nosecrets-foreign-and-large", Body: foreignLargeSection, Bound: -1},
 			{Name: "labels", Body: labelsSection, Bound: -1},
 			{Name: "no-leak", Body: noLeakSection, Bound: -1},
 			{Name: "binding", Body: bindingSection, Bound: -1},
